@@ -37,8 +37,8 @@ def playback(scratch, env, h, feats, is_tests):
         base.append('--tests')
     cmd = base + ['--harness', h['name'], '-Z', 'concrete-playback', '--concrete-playback=inplace']
     # the replay is a courtesy, the verdict is already FAILED: a long trace (observed: > 5 min of trace processing for a harness with
-    # several loops) must not hold the Kani lock for the default 25 minutes
-    p = subprocess.run(cmd, cwd=scratch, env=env, stdout=subprocess.PIPE, stderr=subprocess.STDOUT, timeout=420)
+    # several loops) or a kani-driver that hangs after CBMC has exited (observed twice: futex wait, cbmc defunct) must not hold the Kani lock for 25 minutes
+    p = subprocess.run(cmd, cwd=scratch, env=env, stdout=subprocess.PIPE, stderr=subprocess.STDOUT, timeout=300)
     out = p.stdout.decode('utf-8', 'replace')
     test = None
     vals = None
